@@ -248,4 +248,16 @@ CHECKS = {
             P("TestC19_Binary"),
         ],
     ),
+    "C15": dict(
+        level="exploration",
+        rule=("FileConfig: rapid draws a configuration (two integrations, one referenced; event with a tuple input; filters with arguments; filter_ref on a top-level input, optionally on a block field and on a nested component incl. a user-supplied table; optional unique / index lists and notification columns) and, per configuration, replaces EVERY string-valued position of the JSON tree in turn by a hostile string carrying the marker 'm4rk' "
+              "(quote+drop table, double quote, space, $1, semicolon, parenthesis, comma, newline). Each variant goes through ValidateFix; when accepted the whole life cycle runs against the fake Postgres (migrate, tasks, steps over chain data whose strings, inputs and addresses also carry the marker, notifications, reference lookups, a reorg for the delete statements). "
+              "Oracle: a variant whose hostile position is one the statement lists (integration/table/column names, column types, unique/index entries, filter_ref table/column anywhere, notification columns, source names) must be rejected; for every variant no SQL text (simple query or Parse) received by the server contains the marker and every statement has a known shape. "
+              "Dashboard: the same per-position replacement on the integration posted to /save-integration (and hostile values posted to /save-source): nothing with a hostile listed position may be stored. non-trivial = the variant was accepted, or the position is nested (component / filter_ref / unique / index)."),
+        assumptions=["the marker may appear in Bind parameters and COPY data only", "strings made of letters (any script), digits, underscore and hyphen are legal identifiers by the statement and are not used as hostile values"],
+        units=[
+            R("TestC15_FileConfig", 48, 1600, shards=16),
+            R("TestC15_Dashboard", 160, 4800, shards=16),
+        ],
+    ),
 }
